@@ -140,6 +140,8 @@ def hooks(rank):
           return l.cls != r.cls
       if isinstance(op, ast.Eq) and (l.cls in GROUND) != (r.cls in GROUND):
         return False
+      if isinstance(op, ast.NotEq) and (l.cls in GROUND) != (r.cls in GROUND):
+        return True
     if isinstance(l, Ref) and isinstance(r, Ref):
       if isinstance(op, (ast.Eq, ast.Is)):
         return l.name == r.name
